@@ -307,6 +307,29 @@ def main_c12(run):
             if list(mod.R) != want:
                 run.violation("deeplet:" + text, f"innermost bindings should be {want}, the program gives {list(mod.R)}: {text}",
                               {"text": text})
+        # one let that binds the same names several times: every binding is a variable of its own, which a
+        # closure made right after it keeps seeing whatever is bound later
+        for _k in range(60 if run.quick else 1500):
+            n = rng.randint(2, 9)
+            names_ = [rng.choice(pool[:5] if _k % 2 else pool) for _ in range(n)]
+            binds = " ".join(f"{nm} {i + 1} hyv-g{i} (fn [] {nm})" for i, nm in enumerate(names_))
+            text = f"(setv R (let [{binds}] [" + " ".join(f"(hyv-g{i})" for i in range(n)) + " " + \
+                   " ".join(sorted(set(names_))) + "]))"
+            del cur[:]
+            mod = _types.ModuleType("hyv_widelet")
+            run.case(text)
+            try:
+                code = compile(_hy_compile(hy.read_many(text), mod), "<widelet>", "exec")
+                exec(code, mod.__dict__)
+            except Exception as x:
+                run.violation("widelet:" + text, f"let with repeated names failed: {type(x).__name__}: {x}", {"text": text})
+                continue
+            stream = list(cur)
+            issued_streams.append({"names": stream, "reserved": [int(x.startswith("_hy_")) for x in stream]})
+            want = list(range(1, n + 1)) + [max(i + 1 for i in range(n) if names_[i] == nm) for nm in sorted(set(names_))]
+            if list(mod.R) != want:
+                run.violation("widelet:" + text, f"closures made after each binding, then the final bindings, should give {want}; "
+                              f"the program gives {list(mod.R)}: {text}", {"text": text})
         # local macros and local requires: the variables that hold them are the compiler's too
         for nm in ("m", "set!", "inc+", "ok?", "a-b", "-x", "_y", "λ"):
             for text in (f"(defn hyv-f [] (defmacro {nm} [] 1) ({nm}))\n(hyv-f)",
@@ -413,6 +436,43 @@ def nonlocal_programs(rng, n):
     return out
 
 
+def many_name_programs(rng, n):
+    """Forms that make the compiler collect several names at once (pattern captures handed to a guard function,
+    names a comprehension exposes, declarations, imports, parameters): wherever such a collection is a set, its
+    order must not reach the output."""
+    names = ["a", "b", "c", "dd", "e1", "f2", "g", "hh", "i3", "jj", "kay", "el"]
+    out = []
+    for _ in range(n):
+        k = rng.randint(2, 6)
+        ns = rng.sample(names, k)
+        kind = rng.randrange(9)
+        sp = " ".join(ns)
+        if kind == 0:      # sequence pattern, guard that needs statements
+            out.append(f"(match v [{sp}] :if (do (setv q 1) (> {ns[0]} q)) [{sp}])")
+        elif kind == 1:    # mapping / class patterns, guard with try
+            kv = " ".join(f'"{x}" {x}' for x in ns)
+            out.append(f"(match v {{{kv}}} :if (try (> {ns[-1]} 0) (except [E] False)) [{sp}])")
+        elif kind == 2:
+            kw = " ".join(f":{x} {x}" for x in ns)
+            out.append(f"(match v (C {kw}) :if (do (setv q 0) q) [{sp}] [{sp} #* rest] :if (do (del q) True) rest)")
+        elif kind == 3:    # or-patterns and :as
+            out.append(f"(match v (| [{sp}] [{' '.join(reversed(ns))}]) :as whole :if (do (setv z whole) z) z)")
+        elif kind == 4:    # comprehension exposing several assigned names, at module and function level
+            setvs = " ".join(f":setv {x} (setx {x}-w i)" for x in ns)
+            out.append(f"(lfor i (range 3) {setvs} :do (setv last i) [{sp}])")
+            out.append(f"(defn f [] (lfor i (range 3) {setvs} :do (setv last i) [{sp}]))")
+        elif kind == 5:    # global declarations and deletions
+            out.append(f"(defn f [] (global {sp}) " + " ".join(f"(setv {x} 1)" for x in ns) + f" (del {sp}))")
+        elif kind == 6:    # imports and requires of several names
+            out.append(f"(import os [{' '.join('path :as ' + x for x in ns)}])")
+        elif kind == 7:    # parameters of every kind shadowing let names
+            out.append(f"(let [{' '.join(x + ' 0' for x in ns)}] (defn f [{ns[0]} / {ns[1]} * {' '.join(ns[2:])}] [{sp}]))")
+        else:              # nested functions in a class body closing over let names
+            out.append(f"(let [{' '.join(x + ' 0' for x in ns)}] (defclass K [] " +
+                       " ".join(f"(defn m-{x} [self] (nonlocal {x}) (setv {x} 1))" for x in ns) + "))")
+    return out
+
+
 def main_c13(run):
     rng = random.Random(run.seed)
     q = run.quick
@@ -431,6 +491,23 @@ def main_c13(run):
         number(t)
         texts.append(render(t))
     texts += nonlocal_programs(rng, 400 if q else 6000)
+    texts += many_name_programs(rng, 400 if q else 6000)
+    # the top-level forms of Hy's own Hy sources and of its native tests
+    import hy
+    from ..core import REPO
+    for p in sorted(list((REPO / "hy").rglob("*.hy")) + list((REPO / "tests" / "native_tests").glob("*.hy"))):
+        try:
+            src = p.read_text()
+            forms = list(hy.read_many(src, filename=str(p)))
+        except Exception:
+            continue
+        lines = src.splitlines()
+        for f in forms:
+            if getattr(f, "start_line", None) and getattr(f, "end_line", None):
+                chunk = lines[f.start_line - 1:f.end_line]
+                chunk[-1] = chunk[-1][:f.end_column]
+                chunk[0] = chunk[0][f.start_column - 1:]
+                texts.append("\n".join(chunk))
     texts = list(dict.fromkeys(texts))
     run.log(f"{len(texts)} program texts")
     tf = run.work / "texts.ndjson"
@@ -471,7 +548,9 @@ def main_c13(run):
     run.sample({"order_sensitive_shape": sens[:2]})
     return run.finish("model_checking",
                       "program texts (C01 corpus + nonlocal/global/let/comprehension-heavy obligation shapes that TLC "
-                      "shows to be order-sensitive in HyScopeOrder) compiled in separate interpreter processes under "
+                      "shows to be order-sensitive in HyScopeOrder + forms that collect several names at once: match captures "
+                      "with guards, comprehension assignments, declarations, imports, parameters + every top-level form of "
+                      "Hy's own .hy sources and native tests) compiled in separate interpreter processes under "
                       "several PYTHONHASHSEED values; ast.dump (with positions) and marshalled code must be identical",
                       assumptions=["separate processes differ only in PYTHONHASHSEED"])
 
